@@ -302,9 +302,10 @@ fn run(args: &Args) {
         t.next_episode();
     }
     // all-ASCII haystacks take the ASCII fast paths of ILIKE
-    let ascii_strings = all_strings(&['a', 'A', 'k', '%'], 3);
+    // (the pattern alphabet contains non-ASCII characters that fold to ASCII letters: KELVIN SIGN, long s)
+    let ascii_strings = all_strings(&['a', 'A', 'k', 's'], 3);
     let col_ascii: Col = ascii_strings.iter().cloned().map(Some).collect();
-    let ascii_pats = all_strings(&['%', '_', '\\', 'a', 'K'], 3);
+    let ascii_pats = all_strings(&['%', '_', '\\', 'a', 'K', '\u{212A}', '\u{017F}'], 3);
     for (pi, p) in ascii_pats.iter().enumerate() {
         let pc: Col = vec![Some(p.clone())];
         let e = ENC[pi % 4];
